@@ -3,3 +3,4 @@ import BalmProofs.Props.C20
 #print axioms Balm.Depth.relax_to_local
 #print axioms Balm.KeyBits.key_injective
 #print axioms Balm.Impl.judgeStrict_sound
+#print axioms Balm.Depth.updateDepth_local
